@@ -19,9 +19,9 @@ type vMInteraction struct {
 	path     string
 	ann      bool
 	descr    bool
-	query    bool
+	query    int // 0 none, 1 body only, 2 noFormat, 3 example, 4 example + noFormat, 5 htmlFormEncoded written out
 	request  int // 0 none, 1 body any, 2 body jsight, 3 headers + body any, 4 body any + headers (Body written first)
-	useTag   int // 0 no Tags directive, 1 Tags @t1, 2 Tags @t2
+	useTag   int // 0 no Tags directive, 1 Tags @t1, 2 Tags @t2, 3 Tags @t2 @t1, 4 Tags @t1 @t2
 	opID     bool
 	explicit bool // method context written with ( )
 	idx      int
@@ -44,6 +44,21 @@ type vModel struct {
 	ints            []vMInteraction
 }
 
+// vMTagNames: the tag names a Tags choice writes, in the order written.
+func vMTagNames(t int) []string {
+	switch t {
+	case 1:
+		return []string{"@t1"}
+	case 2:
+		return []string{"@t2"}
+	case 3:
+		return []string{"@t2", "@t1"}
+	case 4:
+		return []string{"@t1", "@t2"}
+	}
+	return nil
+}
+
 var vMMethods = []string{"GET", "POST", "PUT", "PATCH", "DELETE"}
 var vMPaths = []string{"/a", "/a/{id}", "/b"}
 
@@ -58,10 +73,11 @@ var vFeatGroups = [][]string{
 	{"tag", "tag2", "useTag0", "useTag1", "grouped", "urlTag", "path0", "path1"},
 	{"info", "infoDescr", "infoTitle", "infoVersion", "server", "server2", "typ", "typ2", "enum", "enum2", "tag", "blockAnn"},
 	{"nresp0", "swap0", "body0a", "hdr0a", "rann0a", "body0b", "hdr0b", "rann0b", "typ"},
-	{"ann0", "descr0", "query0", "request0", "opid0", "explicit0", "method0", "path0"},
-	{"grouped", "explicit0", "explicit1", "path0", "path1", "method0", "method1", "urlTag", "tag"},
+	{"ann0", "descr0", "query0", "request0", "opid0", "explicit0"},
+	{"grouped", "explicit0", "explicit1", "path0", "path1", "method0", "method1"},
 	{"nresp1", "swap1", "body1a", "hdr1a", "rann1a", "body1b", "hdr1b", "request1", "descr1"},
 	{"rpc", "tag", "tag2", "useTag0", "grouped", "urlTag", "path0", "path1", "blockAnn"},
+	{"method0", "path0", "query0", "explicit0", "request0", "enum", "enum2"},
 }
 
 func vFeatSymbolic(name string, i uint) bool {
@@ -111,12 +127,12 @@ func vModelSymbolic(n int) vModel {
 		in := vMInteraction{
 			method: vMMethods[vFeatInt("method"+id, 0, len(vMMethods)-1)],
 			path:   vMPaths[vFeatInt("path"+id, 0, len(vMPaths)-1)],
-			ann:    vFeatBool("ann" + id), descr: vFeatBool("descr" + id), query: vFeatBool("query" + id),
-			request: vFeatInt("request"+id, 0, 4), useTag: vFeatInt("useTag"+id, 0, 2), opID: vFeatBool("opid" + id),
+			ann:    vFeatBool("ann" + id), descr: vFeatBool("descr" + id), query: vFeatInt("query"+id, 0, 5),
+			request: vFeatInt("request"+id, 0, 4), useTag: vFeatInt("useTag"+id, 0, 4), opID: vFeatBool("opid" + id),
 			explicit: vFeatBool("explicit" + id), idx: i,
 		}
 		// dependent features are coerced (not assumed), so that every feature vector is a model
-		if (!m.tag && in.useTag == 1) || (!m.tag2 && in.useTag == 2) {
+		if (!m.tag && in.useTag == 1) || (!m.tag2 && in.useTag == 2) || (in.useTag >= 3 && !(m.tag && m.tag2)) {
 			in.useTag = 0
 		}
 		nr := vFeatInt("nresp"+id, 1, 2)
@@ -197,10 +213,10 @@ func vRender(m vModel) string {
 		sb.WriteString("TYPE @ty2 regex" + m.annotation("re type") + "\n/z+/\n")
 	}
 	if m.enum {
-		sb.WriteString("ENUM @en\n[\"x\", \"y\"]\n")
+		sb.WriteString("ENUM @en\n[\n  \"x\", // ex\n  \"y\"\n]\n")
 	}
 	if m.enum2 {
-		sb.WriteString("ENUM @en2" + m.annotation("second enum") + "\n[1, 2]\n")
+		sb.WriteString("ENUM @en2" + m.annotation("second enum") + "\n[\n  1, // one\n  true, // yes\n  null // nothing\n]\n")
 	}
 	writeInt := func(in vMInteraction, ind string, withPath bool) {
 		line := ind + in.method
@@ -216,7 +232,7 @@ func vRender(m vModel) string {
 			sb.WriteString(ind + "(\n")
 		}
 		if in.useTag > 0 {
-			sb.WriteString(ci + "Tags @t" + strconv.Itoa(in.useTag) + "\n")
+			sb.WriteString(ci + "Tags " + strings.Join(vMTagNames(in.useTag), " ") + "\n")
 		}
 		if in.opID {
 			sb.WriteString(ci + "OperationId op" + in.method + strconv.Itoa(in.idx) + "\n")
@@ -224,8 +240,9 @@ func vRender(m vModel) string {
 		if in.descr {
 			sb.WriteString(ci + "Description\n" + ci + "  what " + in.method + "\n" + ci + "  does\n")
 		}
-		if in.query {
-			sb.WriteString(ci + "Query\n" + ci + "{\n" + ci + "  \"q\": 1\n" + ci + "}\n")
+		if in.query > 0 {
+			qp := []string{"", "", " noFormat", " \"q=1\"", " \"q=1\" noFormat", " htmlFormEncoded"}[in.query]
+			sb.WriteString(ci + "Query" + qp + "\n" + ci + "{\n" + ci + "  \"q\": 1\n" + ci + "}\n")
 		}
 		switch in.request {
 		case 1:
@@ -342,10 +359,10 @@ func vExpectedDigest(m vModel) []string {
 		add("type", "@ty2", q("re type"), "regex", "/z+/")
 	}
 	if m.enum {
-		add("enum", "@en", q(""), "[\"x\",\"y\"]")
+		add("enum", "@en", q(""), "[\"x\",//ex\"y\"]")
 	}
 	if m.enum2 {
-		add("enum", "@en2", q("second enum"), "[1,2]")
+		add("enum", "@en2", q("second enum"), "[1,//onetrue,//yesnull//nothing]")
 	}
 	// tags: declared ones first, then path tags in the order of first use
 	type tg struct {
@@ -368,7 +385,7 @@ func vExpectedDigest(m vModel) []string {
 	if m.tag2 {
 		tags = append(tags, &tg{name: "@t2", title: "@t2", descr: q("second")})
 	}
-	// the tag of an interaction: its own Tags, else the URL's Tags, else the path tag
+	// the tags of an interaction: its own Tags, else the URL's Tags, else the path tag
 	tagOf := func(in vMInteraction) int {
 		if in.useTag > 0 {
 			return in.useTag
@@ -388,8 +405,9 @@ func vExpectedDigest(m vModel) []string {
 	for _, in := range m.ints {
 		id := "http " + in.method + " " + in.path
 		if t := tagOf(in); t > 0 {
-			n := "@t" + strconv.Itoa(t)
-			find(n).ids = append(find(n).ids, id)
+			for _, n := range vMTagNames(t) {
+				find(n).ids = append(find(n).ids, id)
+			}
 			continue
 		}
 		first := strings.Split(strings.TrimPrefix(in.path, "/"), "/")[0]
@@ -424,7 +442,7 @@ func vExpectedDigest(m vModel) []string {
 		id := "http " + in.method + " " + in.path
 		tagName := "@" + strings.Split(strings.TrimPrefix(in.path, "/"), "/")[0]
 		if t := tagOf(in); t > 0 {
-			tagName = "@t" + strconv.Itoa(t)
+			tagName = strings.Join(vMTagNames(t), ",")
 		}
 		ann, desc, opid := "<nil>", "<nil>", "<nil>"
 		if in.ann {
@@ -440,8 +458,15 @@ func vExpectedDigest(m vModel) []string {
 		if strings.Contains(in.path, "{") {
 			add("  pathvars")
 		}
-		if in.query {
-			add("  query", q("htmlFormEncoded"), q(""), "{\"q\":1}")
+		if in.query > 0 {
+			format, example := "htmlFormEncoded", ""
+			if in.query == 2 || in.query == 4 {
+				format = "noFormat"
+			}
+			if in.query == 3 || in.query == 4 {
+				example = "q=1"
+			}
+			add("  query", q(format), q(example), "{\"q\":1}")
 		}
 		switch in.request {
 		case 1:
@@ -476,6 +501,81 @@ func vExpectedDigest(m vModel) []string {
 	return out
 }
 
+// vMObj: the emitter's content of a flat object body {"k": v, ...} — each property given
+// as key, JSON token type, JSight type, scalar value as written.
+func vMObj(props ...[4]string) string {
+	s := "jsight <object/object"
+	for _, p := range props {
+		s += "<" + strconv.Quote(p[0]) + " " + p[1] + "/" + p[2] + " =" + strconv.Quote(p[3]) + ">"
+	}
+	return s + ">"
+}
+
+// vExpectedDeep: the emitter-level content of every schema and enum of the model
+// (same order and conventions as vDigestDeep).
+func vExpectedDeep(m vModel) []string {
+	var out []string
+	add := func(parts ...string) { out = append(out, strings.Join(parts, " ")) }
+	q := strconv.Quote
+	if m.typ {
+		add("deep type", "@ty", q(""), vMObj([4]string{"a", "number", "integer", "1"}))
+	}
+	if m.typ2 {
+		add("deep type", "@ty2", q(""), "regex "+q("z+"))
+	}
+	if m.enum {
+		add("deep enum", "@en", q(""), `(:array(:string note="ex" ="x")(:string ="y"))`)
+	}
+	if m.enum2 {
+		add("deep enum", "@en2", q(""), `(:array(:number note="one" ="1")(:boolean note="yes" ="true")(:null note="nothing" ="null"))`)
+	}
+	if m.rpc > 0 {
+		id := "json-rpc-2.0 doIt /rpc"
+		if m.rpc != 3 {
+			add("deep params", id, vMObj([4]string{"p", "number", "integer", "1"}))
+		}
+		if m.rpc != 2 {
+			add("deep result", id, vMObj([4]string{"r", "number", "integer", "2"}))
+		}
+	}
+	for _, in := range m.ints {
+		id := "http " + in.method + " " + in.path
+		if strings.Contains(in.path, "{") {
+			// a path parameter without a Path directive is described as a string of type "any"
+			// (same content as in the repository's snapshots)
+			add("deep pathvars", id, "jsight <object/object<\"id\" string/any rules=(type:string =\"any\") =\"\">>")
+		}
+		if in.query > 0 {
+			add("deep query", id, vMObj([4]string{"q", "number", "integer", "1"}))
+		}
+		switch in.request {
+		case 1:
+			add("deep request-body", id, "pseudo any")
+		case 2:
+			add("deep request-body", id, vMObj([4]string{"r", "boolean", "boolean", "true"}))
+		case 3, 4:
+			add("deep request-headers", id, vMObj([4]string{"X", "string", "string", "v"}))
+			add("deep request-body", id, "pseudo any")
+		}
+		for _, r := range in.resp {
+			if r.headers {
+				add("deep response-headers", id, r.code, vMObj([4]string{"H", "string", "string", "w"}))
+			}
+			switch r.body {
+			case 0:
+				add("deep response-body", id, r.code, "pseudo any")
+			case 1:
+				add("deep response-body", id, r.code, "jsight <reference/@ty =\"@ty\"> types=@ty")
+			case 2:
+				add("deep response-body", id, r.code, vMObj([4]string{"ok", "number", "integer", "1"}))
+			case 3:
+				add("deep response-body", id, r.code, "jsight <array/array<reference/@ty optional =\"@ty\">> types=@ty") // array items are optional (as in the repository's own snapshots)
+			}
+		}
+	}
+	return out
+}
+
 // HModel (C02): abstract model (symbolic features) -> rendered document -> build -> the catalog says exactly the model.
 func HModel() {
 	m := vModelSymbolic(vParam("n", 1))
@@ -485,7 +585,7 @@ func HModel() {
 		vObserve("doc", doc, int(je.Index), je.Msg)
 	}
 	vAssert(je == nil, "c02-rendered-model-rejected")
-	got, want := vDigest(c), vExpectedDigest(m)
+	got, want := vDigestDeep(c), append(vExpectedDigest(m), vExpectedDeep(m)...)
 	if vParam("debug", 0) == 1 {
 		for i := range want {
 			if i >= len(got) || got[i] != want[i] {
